@@ -205,7 +205,7 @@ closed spec fn replace_is_atomic() -> bool { true }
 /// `replace` on the Replace adapter (a pass-through that does not flush pending deletes/inserts) is outside
 /// the verified envelope: no verified caller can call it
 closed spec fn accepts_replace(&self) -> bool { false }
-#[verifier::prophetic] open spec fn fobs(&self) -> Obs<Self::Error> { self.inner().fobs() }
+#[verifier::prophetic] open spec fn fobs(&self) -> Seq<Obs<Self::Error>> { self.inner().fobs() }
 /// configuration: the creator's ghost assignments and the inner hook's configuration
 closed spec fn config(&self) -> Self {
     Replace { d: self.d.config(), del: None, ins: None, eq: None, hist: Ghost(Seq::empty()), em: Ghost(Seq::empty()), it0: Ghost(Seq::empty()), rst0: self.rst0, rel0: self.rel0 }
